@@ -321,3 +321,5 @@ def run(ctx):
                        "COO/GCXS(every compressed axes, any order)/DOK/dense compared step by step on representation; leg C: chains incl. "
                        "CSR/CSC/scipy over 7 dtypes and NaN/inf fills vs the original dense array; constructors from coords/dict/pairs; "
                        "non-trivial = non-empty array; distinct by content hash")
+    import extra_ops  # operation tables closing the measured coverage gaps (tools/coverage_audit.py; coverage/API_COVERAGE.md)
+    extra_ops.run(ctx, PID)
